@@ -21,7 +21,7 @@ SPEC = {
     "assumptions": ["vlib/langspec.py stack signatures ('certain' entries)", "vlib/cfg.py forced-branch exploration (calibrated on all golden TEAL)",
                     "vlib/avm.py sanitizers"],
     "min_evaluations": {"quick": 8000, "thorough": 60000},
-    "must_reach": ["abstract_ok", "forced_branches", "routines_analysed", "concrete_runs", "frame_routines", "src_catalogue", "src_recipe", "src_abi", "src_router", "src_corpus"],
+    "must_reach": ["abstract_ok", "forced_branches", "routines_analysed", "concrete_runs", "frame_routines", "src_catalogue", "src_recipe", "src_abi", "src_router", "src_corpus", "typed_join_rejected"],
     "shard_timeout": {"quick": 600, "thorough": 7200},
 }
 
@@ -131,6 +131,7 @@ def run_shard(shard):
         check_recipe(acc, probe, recipe, v, mode, (ss, fp), ctxs, seen)
     for v in (6, 8, 10):
         history_probe(pt, acc, seen, v)
+    typed_join_probes(pt, acc, seen, rng, 60 if shard["tier"] == "quick" else 400)
     return acc.result()
 
 
@@ -164,6 +165,65 @@ def history_probe(pt, acc, seen, version):
         acc.counters["concrete_runs"] += 1
         if r.status == "fail" and r.error_kind in ("type", "stack", "frame"):
             acc.violation("runtime_discipline", case, "after a failed compilation, a program without anytype expressions failed with a %s error: %s" % (r.error_kind, r.error), teal=teal[-1200:])
+
+
+def typed_join_probes(pt, acc, seen, rng, n):
+    """Conditional constructs assembled with arms of *different* types in every position: the constructors must either reject them
+    or the emitted program must be type-safe.  The expression is consumed by an opcode of its own declared type (Itob for uint64,
+    Len for bytes) and every arm is driven by a context; a run-time type failure is a violation (no anytype is involved)."""
+    from .. import avm
+    from ..common import PT_ERRORS, reset_globals
+    I, B = pt.Int, pt.Bytes
+    for _ in range(n):
+        reset_globals()
+        k = rng.choice([2, 3, 3, 4])
+        types = [rng.choice("ub") for _ in range(k)]
+        if len(set(types)) == 1:
+            types[rng.randrange(k)] = "b" if types[0] == "u" else "u"
+        form = rng.choice(["if_fn", "if_then_else", "elseif", "elseif", "cond", "nested"])
+        version = rng.choice([2, 4, 6, 8, 10])
+        sel = lambda i: pt.Btoi(pt.Txn.application_args[0]) == I(i)  # noqa: E731
+        val = lambda t, i: I(10 + i) if t == "u" else B("v%d" % i)  # noqa: E731
+        case = {"source": "typed_join_probe", "form": form, "arm_types": types, "version": version}
+        try:
+            if form == "if_fn":
+                e = pt.If(sel(0), val(types[0], 0), val(types[1], 1))
+            elif form == "if_then_else":
+                e = pt.If(sel(0)).Then(val(types[0], 0)).Else(val(types[1], 1))
+            elif form == "elseif":
+                e = pt.If(sel(0)).Then(val(types[0], 0))
+                for i in range(1, k - 1):
+                    e = e.ElseIf(sel(i)).Then(val(types[i], i))
+                e = e.Else(val(types[k - 1], k - 1))
+            elif form == "cond":
+                e = pt.Cond(*[[sel(i), val(types[i], i)] for i in range(k - 1)], [I(1), val(types[k - 1], k - 1)])
+            else:
+                inner = pt.If(sel(1)).Then(val(types[1], 1)).Else(val(types[-1], k - 1))
+                e = pt.If(sel(0)).Then(val(types[0], 0)).Else(inner)
+            declared = e.type_of()
+            consumer = pt.Itob(e) if declared == pt.TealType.uint64 else pt.Len(e) if declared == pt.TealType.bytes else None
+            if consumer is None:
+                acc.counters["typed_join_anytype"] += 1
+                continue
+            teal = pt.compileTeal(pt.Seq(pt.Pop(consumer), I(1)), pt.Mode.Application, version=version)
+        except PT_ERRORS:
+            acc.counters["typed_join_rejected"] += 1
+            continue
+        except Exception as e2:
+            acc.counters["typed_join_crashed:" + type(e2).__name__] += 1
+            continue
+        acc.evaluations += 1
+        acc.counters["typed_join_accepted"] += 1
+        p = judge_text(acc, "typed_join_probe", "app", version, teal, case, seen)
+        if p is None:
+            continue
+        for i in range(k):
+            r = avm.run(p, avm.Ctx(group=[{"ApplicationArgs": [i.to_bytes(8, "big")]}]))
+            acc.counters["concrete_runs"] += 1
+            if r.status == "fail" and r.error_kind == "type":
+                acc.violation("runtime_discipline", dict(case, arm=i), "a conditional whose arms have types %s was accepted with declared type %s; taking arm %d fails with %s"
+                              % (types, declared, i, r.error), teal=teal[-800:])
+                break
 
 
 def check_recipe(acc, probe, recipe, v, mode, opts, ctxs, seen):
